@@ -45,6 +45,19 @@ FILE_CHECKS = {
     "ribs/emitters/opt/_lm_ma_es.py": ["C18"],
     "ribs/emitters/opt/_openai_es.py": ["C18"],
     "ribs/emitters/opt/_adam_opt.py": ["C18", "C19"],
+    "ribs/emitters/opt/_gradient_ascent_opt.py": ["C19", "C18"],
+    "ribs/emitters/opt/_pycma_es.py": ["C18", "C08"],
+    "ribs/emitters/_emitter_base.py": ["C08"],
+    "ribs/emitters/_genetic_algorithm_emitter.py": ["C08", "C09"],
+    "ribs/emitters/operators/_gaussian.py": ["C08"],
+    "ribs/emitters/operators/_iso_line.py": ["C08"],
+    "ribs/archives/_archive_data_frame.py": ["C12", "C20"],
+    "ribs/visualize/_grid_archive_heatmap.py": ["C20"],
+    "ribs/visualize/_cvt_archive_heatmap.py": ["C20"],
+    "ribs/visualize/_sliding_boundaries_archive_heatmap.py": ["C20"],
+    "ribs/visualize/_parallel_axes_plot.py": ["C20"],
+    "ribs/visualize/_proximity_archive_plot.py": ["C20"],
+    "ribs/visualize/_utils.py": ["C20"],
 }
 
 CMP = {ast.Lt: ast.LtE, ast.LtE: ast.Lt, ast.Gt: ast.GtE, ast.GtE: ast.Gt, ast.Eq: ast.NotEq, ast.NotEq: ast.Eq}
